@@ -1,5 +1,5 @@
 """Named monitor sets (so that a replay file can rebuild exactly the monitors that produced it)."""
-from harness.monitors import MLife, MCarry, MDrain, MEscape, MHist, MViews, MFail, MRef, MJoin, MCrash
+from harness.monitors import MLife, MCarry, MDrain, MEscape, MHist, MViews, MFail, MRef, MJoin, MCrash, MTime
 
 def base(scenario):
     life = MLife()
@@ -13,7 +13,11 @@ def crash(scenario):
     life = MLife()
     return [life, MCarry(), MDrain(life), MEscape(), MCrash(scenario)]
 
-SETS = {"base": base, "full": full, "crash": crash}
+def timing(scenario):
+    life = MLife()
+    return [life, MEscape(), MRef(scenario), MTime(scenario), MCrash(scenario)]
+
+SETS = {"base": base, "full": full, "crash": crash, "timing": timing}
 
 def get(name):
     return SETS[name]
